@@ -71,6 +71,17 @@ CAMLprim value vp_varint_length_packed(value s)
 	free(raw);
 	return Val_long(r);
 }
+/* the same with a chosen byte behind the buffer: with a byte below 0x80 there, a decoder that looks at data[len_data]
+ * (for instance data[0] of an EMPTY buffer) finds a terminator that is not its own */
+CAMLprim value vp_varint_length_packed_tail(value s, value tail)
+{
+	size_t n = caml_string_length(s);
+	uint8_t *raw = malloc(n + 32); memset(raw, Long_val(tail), n + 32);
+	memcpy(raw + 16, String_val(s), n);
+	size_t r = mtbl_varint_length_packed(raw + 16, n);
+	free(raw);
+	return Val_long(r);
+}
 CAMLprim value vp_fixed_encode(value bits, value v, value align)
 {
 	CAMLparam3(bits, v, align);
@@ -394,6 +405,47 @@ CAMLprim value vp_crc_impl(value which, value s, value align)
 	}
 	free(raw);
 	CAMLreturn(caml_copy_int64((int64_t)(uint64_t) r));
+}
+/* mtbl_crc32c from several threads at once, each on its own private buffer (lengths not a multiple of 8, so the tail
+ * code runs): returns the number of calls whose result was not the CRC-32C of the caller's buffer (bitwise reference) */
+static uint32_t vp_crc_bitwise(const uint8_t *p, size_t n)
+{
+	uint32_t c = 0xffffffffu;
+	for (size_t i = 0; i < n; i++) { c ^= p[i]; for (int k = 0; k < 8; k++) c = (c >> 1) ^ (0x82f63b78u & (0u - (c & 1u))); }
+	return ~c;
+}
+struct vp_crc_thr { uint8_t buf[64]; size_t len; long iters; long bad; };
+static void *vp_crc_thread(void *a)
+{
+	struct vp_crc_thr *t = a;
+	uint32_t want = vp_crc_bitwise(t->buf, t->len);
+	for (long i = 0; i < t->iters; i++) if (mtbl_crc32c(t->buf, t->len) != want) t->bad++;
+	return NULL;
+}
+CAMLprim value vp_crc_threads(value nthr, value iters)
+{
+	int n = Long_val(nthr); if (n > 16) n = 16;
+	struct vp_crc_thr t[16]; pthread_t th[16]; long bad = 0;
+	for (int i = 0; i < n; i++) {
+		t[i].len = 7 + 8 * (i % 4) - (i / 4); t[i].iters = Long_val(iters); t[i].bad = 0;
+		for (size_t k = 0; k < sizeof(t[i].buf); k++) t[i].buf[k] = (uint8_t) (k * 37 + i * 101 + 5);
+	}
+	for (int i = 0; i < n; i++) pthread_create(&th[i], NULL, vp_crc_thread, &t[i]);
+	for (int i = 0; i < n; i++) { pthread_join(th[i], NULL); bad += t[i].bad; }
+	return Val_long(bad);
+}
+/* the empty buffer given as (NULL, 0) */
+CAMLprim value vp_crc_null(value which)
+{
+	uint32_t r = 0;
+	switch (Long_val(which)) {
+	case 0: r = mtbl_crc32c(NULL, 0); break;
+	case 1: r = my_crc32c_slicing(NULL, 0); break;
+#if __GNUC__ >= 3 && defined(__x86_64__)
+	case 2: r = my_crc32c_sse42(NULL, 0); break;
+#endif
+	}
+	return caml_copy_int64((int64_t)(uint64_t) r);
 }
 /* mtbl_crc32c twice on ONE buffer whose content is replaced in place between the calls (same address, same length) */
 CAMLprim value vp_crc_inplace(value s1, value s2)
